@@ -153,7 +153,7 @@ pub fn check(plans: &[Plan], recs: &[RunRec]) -> Outcome {
     let mut warm = false;
     for v in &views {
         let g = v.go;
-        if g.tid.is_none() || g.refused {
+        if (g.tid.is_none() && !g.inline) || g.refused {
             continue;
         }
         if warm {
@@ -221,7 +221,7 @@ pub fn check(plans: &[Plan], recs: &[RunRec]) -> Outcome {
             && l.btime.is_none()
             && l.winc.is_none()
             && l.binc.is_none();
-        if only_depth && !g.bestmoves.is_empty() || (only_depth && g.thread_ended) {
+        if only_depth && (!g.bestmoves.is_empty() || g.thread_ended) {
             let n = l.depth.unwrap();
             let before_best = g
                 .infos
